@@ -465,24 +465,39 @@ func c16Case(res *core.Result, rng *rand.Rand, idx int) {
 			vs.SetRule(valid.RM{"Name": "eq=77|stale_unscoped"})
 			vs.SetRule(valid.RM{})
 		}
+		// the registrations may come in any order (scoped ones before the unscoped one included):
+		// each SetRule adds to what is registered, it replaces only its own scope
+		regs := []func(){}
 		if scOuter != nil {
-			vs.SetRule(toRM(scOuter), &C16Outer{})
+			regs = append(regs, func() { vs.SetRule(toRM(scOuter), &C16Outer{}) })
 		}
 		if scInner != nil {
-			switch rng.Intn(3) {
-			case 0:
-				vs.SetRule(toRM(scInner), C16Inner{}) // value, pointer and typed nil pointer name the same type
-			case 1:
-				vs.SetRule(toRM(scInner), (*C16Inner)(nil))
-			default:
-				vs.SetRule(toRM(scInner), &C16Inner{})
-			}
+			k := rng.Intn(3)
+			regs = append(regs, func() {
+				switch k {
+				case 0:
+					vs.SetRule(toRM(scInner), C16Inner{}) // value, pointer and typed nil pointer name the same type
+				case 1:
+					vs.SetRule(toRM(scInner), (*C16Inner)(nil))
+				default:
+					vs.SetRule(toRM(scInner), &C16Inner{})
+				}
+			})
 		}
 		if scOther != nil {
-			vs.SetRule(toRM(scOther), &C16Other{})
+			regs = append(regs, func() { vs.SetRule(toRM(scOther), &C16Other{}) })
 		}
 		if scBare != nil {
-			vs.SetRule(toRM(scBare), &C16Bare{})
+			regs = append(regs, func() { vs.SetRule(toRM(scBare), &C16Bare{}) })
+		}
+		rng.Shuffle(len(regs), func(a, b int) { regs[a], regs[b] = regs[b], regs[a] })
+		for _, r := range regs {
+			r()
+		}
+		if unscoped != nil && len(regs) > 0 && rng.Intn(2) == 0 {
+			// ... and the unscoped set once more, AFTER the scoped ones
+			vs.SetRule(toRM(unscoped))
+			res.Count("unscoped_registered_after_scoped")
 		}
 		for n, f := range local {
 			vs.SetValidFn(n, f)
